@@ -256,7 +256,7 @@ class BaseRequest(MutableMapping[str | RequestKey[Any], Any], HeadersMixin):
             new_headers = HeadersDictProxy(CIMultiDict(headers))
             dct["headers"] = new_headers
             dct["raw_headers"] = tuple(
-                (k.encode("utf-8"), v.encode("utf-8"))
+                (k.encode("utf-8"), v.encode("utf-8", "surrogateescape"))
                 for k, v in new_headers._md.items()
             )
 
